@@ -43,10 +43,11 @@ Example C07_example :
   map p_fw (ptasks s) = [Some FCancelled; Some FCancelled] /\ taint_iter s = false.
 Proof. vm_compute. repeat split; reflexivity. Qed.
 
-(** Monitor soundness, PARTIAL: on a stream of the model the monitor never reports the clauses C07_forgotten and C07_unknown_no_change (the two remaining clauses are checked at run time only). *)
-From TP Require PMonSound_C07 PObs PMon.
-Theorem mon_sound : forall c tr, clean (run c tr) -> forall j cl, PMon.mon_run c 7 (PMon.trk_init c) 0 (PObs.observe c tr) = Some (j, cl) -> cl = PMon.C07_no_late_start \/ cl = PMon.C07_no_late_pull.
-Proof. intros c tr Hc j cl H. exact (PMonSound_C07.mon_C07_sound_partial c tr Hc j cl H). Qed.
+
+(** Monitor soundness: the extracted monitor for C07 (all four clauses) never rejects a stream of the model (P-iter; shown necessary by a counterexample trace). *)
+From TP Require PMonSound7_C07 PObs PMon.
+Theorem mon_sound : forall c tr, clean (run c tr) -> taint_iter (run c tr) = false -> PMon.ok_C07 c (PObs.observe c tr) = true.
+Proof. exact PMonSound7_C07.mon_C07_sound. Qed.
 
 Print Assumptions C07_group.
 Print Assumptions C07_all.
